@@ -379,7 +379,7 @@ def mark_replay(cases, limit, nkey):
     for c in cases:
         if n >= limit:
             break
-        if (c['L'] <= 3 and c.get('Dmax', 2) <= 3 and c['model'] in ('xxz', 'ising', 'randherm', 'randherm_q') and c.get(nkey, 1) <= 2
+        if (c['L'] <= 3 and c.get('Dmax', 2) <= 3 and c['model'] in ('xxz', 'ising', 'randherm', 'randherm_q', 'xxz_dm') and c.get(nkey, 1) <= 2
                 and c.get('repeat', 1) == 1 and c.get('numiter', 3) <= 4 and not c.get('complete')):
             c['replay'] = True
             n += 1
